@@ -60,7 +60,11 @@ def run_kani_part(pid, part, tier, seed, report):
         entry['family'] = part['family']
         report['instances'].append(entry)
         if r.status == 'undecided':
-            incon.append('%s undecided (timeout / memory / tool error), log %s' % (q, log))
+            if tier == 'thorough' and part.get('best_effort') and re.search(part['best_effort'], q):
+                # beyond-quick instances at the edge of what CBMC decides within the cap: reported, not a verdict
+                report.setdefault('not_decided_best_effort', []).append(q)
+            else:
+                incon.append('%s undecided (timeout / memory / tool error), log %s' % (q, log))
             continue
         if r.unwind_failed:
             incon.append('%s: unwinding assertion failed (bound too small for this tree)' % q)
@@ -161,6 +165,7 @@ def write_evidence(pid, tier, seed, spec, report, wall, n_viol, extra_assumption
         'witnesses_satisfied': report['witnesses'],
         'property_assertions_checked': report.get('property_assertions', 0),
         'not_decided': report['inconclusive'],
+        'not_decided_best_effort_instances': report.get('not_decided_best_effort', []),
         'counterexamples': report['counterexamples'],
         'known_findings_hit': report['known'],
         'failures_of_other_properties_seen': report['other_property_failures'][:10],
